@@ -87,11 +87,11 @@ def main(tier, replay=None):
         rp = json.load(open(replay))
         reqs = [rp["request"]] if "request" in rp else []
     else:
-        n = 300 if tier == "quick" else 4000
+        n = 300 if tier == "quick" else 6000
         nf = 2 if tier == "quick" else 4
         reqs = base.read_corpus("C06.cases") + base.gen_requests(sd, n, 0, 0, nf, first_tag=1000)
         # every class is exercised on purpose as well (the rarer classes need a directed search for a site)
-        per = 8 if tier == "quick" else 60
+        per = 8 if tier == "quick" else 100
         for ci, fc in enumerate(FAULT_CLASSES):
             reqs += base.gen_requests(sd + 1000 + ci, per, 0, 0, 2, fwant=fc, first_tag=20000 + ci * 1000,
                                       prefix="c%d_" % ci)
